@@ -392,3 +392,197 @@ func sortedFuncs(m map[*ssa.Function]bool) []*ssa.Function {
 	})
 	return res
 }
+
+// ---------- phi-sensitive path search ----------
+
+// nonNilValue: v is obviously non-nil (address-of, allocation, or a call whose every return is such; depth 2).
+func nonNilValue(v ssa.Value, depth int) bool {
+	switch x := v.(type) {
+	case *ssa.Alloc, *ssa.FieldAddr, *ssa.IndexAddr, *ssa.MakeInterface, *ssa.MakeClosure, *ssa.MakeMap, *ssa.MakeSlice, *ssa.MakeChan, *ssa.Function, *ssa.Global:
+		return true
+	case *ssa.Call:
+		if depth > 2 {
+			return false
+		}
+		sc := x.Common().StaticCallee()
+		if sc == nil || sc.Blocks == nil {
+			return false
+		}
+		ok := true
+		n := 0
+		eachInstr(sc, func(in ssa.Instruction) {
+			if r, isRet := in.(*ssa.Return); isRet && len(r.Results) == 1 {
+				n++
+				if !nonNilValue(r.Results[0], depth+1) {
+					ok = false
+				}
+			}
+		})
+		return ok && n > 0
+	}
+	return false
+}
+
+// pathSearch walks forward from just after start, choosing for "flag-like" phis (those with a
+// nil or boolean constant edge) the edge actually taken, and pruning branches whose condition
+// is decided by such a phi. It returns a path to an instruction matching target that does not
+// pass one matching sat, or nil. Paths ending in panic are ignored.
+func pathSearch(start ssa.Instruction, sat, target func(ssa.Instruction) bool) *pathResult {
+	type state struct {
+		b    *ssa.BasicBlock
+		asg  string
+	}
+	flagPhi := func(p *ssa.Phi) bool {
+		for _, e := range p.Edges {
+			if k, ok := e.(*ssa.Const); ok && (k.Value == nil || k.Value.Kind() == constant.Bool) {
+				return true
+			}
+		}
+		return false
+	}
+	asgKey := func(m map[*ssa.Phi]ssa.Value) string {
+		var ks []string
+		for p, v := range m {
+			ks = append(ks, p.Name()+"="+v.Name()+v.String())
+		}
+		sort.Strings(ks)
+		return fmt.Sprint(ks)
+	}
+	seen := map[state]bool{}
+	var trace []*ssa.BasicBlock
+	// decide evaluates an If condition under the assignment: 1 true, 0 false, -1 unknown
+	var valueOf func(v ssa.Value, asg map[*ssa.Phi]ssa.Value) ssa.Value
+	valueOf = func(v ssa.Value, asg map[*ssa.Phi]ssa.Value) ssa.Value {
+		for i := 0; i < 4; i++ {
+			p, ok := v.(*ssa.Phi)
+			if !ok {
+				return v
+			}
+			nv, ok := asg[p]
+			if !ok {
+				return v
+			}
+			v = nv
+		}
+		return v
+	}
+	decide := func(cond ssa.Value, asg map[*ssa.Phi]ssa.Value) int {
+		cond = valueOf(cond, asg)
+		if k, ok := cond.(*ssa.Const); ok && k.Value != nil && k.Value.Kind() == constant.Bool {
+			if constant.BoolVal(k.Value) {
+				return 1
+			}
+			return 0
+		}
+		if bin, ok := cond.(*ssa.BinOp); ok && (bin.Op == token.EQL || bin.Op == token.NEQ) {
+			x, y := valueOf(bin.X, asg), valueOf(bin.Y, asg)
+			if isNilConst(y) {
+				x, y = y, x
+			}
+			if isNilConst(x) {
+				res := -1
+				if isNilConst(y) {
+					res = 1
+				} else if nonNilValue(y, 0) {
+					res = 0
+				}
+				if res >= 0 {
+					if bin.Op == token.NEQ {
+						res = 1 - res
+					}
+					return res
+				}
+			}
+		}
+		return -1
+	}
+	var walk func(b *ssa.BasicBlock, from int, pred *ssa.BasicBlock, asg map[*ssa.Phi]ssa.Value) *pathResult
+	walk = func(b *ssa.BasicBlock, from int, pred *ssa.BasicBlock, asg map[*ssa.Phi]ssa.Value) *pathResult {
+		// bind phis of this block according to pred
+		if pred != nil {
+			idx := -1
+			for i, p := range b.Preds {
+				if p == pred {
+					idx = i
+				}
+			}
+			changed := false
+			for _, in := range b.Instrs {
+				p, ok := in.(*ssa.Phi)
+				if !ok {
+					break
+				}
+				if flagPhi(p) && idx >= 0 {
+					if !changed {
+						n := map[*ssa.Phi]ssa.Value{}
+						for k, v := range asg {
+							n[k] = v
+						}
+						asg = n
+						changed = true
+					}
+					asg[p] = valueOf(p.Edges[idx], asg)
+				}
+			}
+		}
+		st := state{b, asgKey(asg)}
+		if from == 0 {
+			if seen[st] {
+				return nil
+			}
+			seen[st] = true
+		}
+		trace = append(trace, b)
+		defer func() { trace = trace[:len(trace)-1] }()
+		for i := from; i < len(b.Instrs); i++ {
+			in := b.Instrs[i]
+			if sat(in) {
+				return nil
+			}
+			if target(in) {
+				return &pathResult{exit: in, trace: append([]*ssa.BasicBlock(nil), trace...)}
+			}
+			if _, ok := in.(*ssa.Panic); ok {
+				return nil
+			}
+		}
+		if ifi, ok := b.Instrs[len(b.Instrs)-1].(*ssa.If); ok {
+			switch decide(ifi.Cond, asg) {
+			case 1:
+				return walk(b.Succs[0], 0, b, asg)
+			case 0:
+				return walk(b.Succs[1], 0, b, asg)
+			}
+		}
+		for _, s := range b.Succs {
+			if r := walk(s, 0, b, asg); r != nil {
+				return r
+			}
+		}
+		return nil
+	}
+	return walk(start.Block(), instrIndex(start)+1, nil, map[*ssa.Phi]ssa.Value{})
+}
+
+func isReturn(in ssa.Instruction) bool { _, ok := in.(*ssa.Return); return ok }
+
+// retVal returns the i-th result of a return, looking through the spill that go/ssa inserts
+// in functions with defers (*result = v; rundefers; t = *result; return t).
+func retVal(ret *ssa.Return, i int) ssa.Value {
+	v := ret.Results[i]
+	ld, ok := v.(*ssa.UnOp)
+	if !ok || ld.Op != token.MUL {
+		return v
+	}
+	al, ok := ld.X.(*ssa.Alloc)
+	if !ok {
+		return v
+	}
+	b := ret.Block()
+	for j := instrIndex(ld) - 1; j >= 0; j-- {
+		if st, ok := b.Instrs[j].(*ssa.Store); ok && st.Addr == al {
+			return st.Val
+		}
+	}
+	return v
+}
